@@ -128,7 +128,7 @@ def run(ctx):
                 a, b2 = unbyref(f[1][2][0]), unbyref(f[1][2][1])
                 if equal and ((is_digest(a) and contains_value(b2, eacc("id"))) or (is_digest(b2) and contains_value(a, eacc("id")))):
                     eq_edges.append(node)
-    reach = an.cfg.reach_from([an.cfg.entry], avoid=eq_edges)
+    reach = s.reach(ver, [an.cfg.entry], avoid=eq_edges)
     okid = bool(eq_edges) and not any(n in reach for n in oks)
     s.add("S-MUSTPASS", ver, "id-equals-digest", "sha256(signable)==id", ver.sp, PROVED if okid else VIOLATION,
           "Ok(()) is reached only through the 'equal' outcome of digest vs the event's own id" if okid else
@@ -146,7 +146,7 @@ def run(ctx):
             continue
         b, i = cs[0]
         good = s.ok_edges_of_call(ver, b)
-        reach = an.cfg.reach_from([an.cfg.entry], avoid=good)
+        reach = s.reach(ver, [an.cfg.entry], avoid=good)
         okp = not any(n in reach for n in oks) and bool(good)
         okv = True
         if prov is not None:
